@@ -30,6 +30,7 @@ type Program struct {
 
 	poolNewOff       int64
 	ioErrShortBuffer *ssa.Global
+	onPublish        *ssa.Function // harness callback invoked after every atomic pointer Store
 }
 
 // ---- path control signals (host panics) ----
@@ -125,6 +126,7 @@ type Machine struct {
 	maxDepth    int
 	envCache    map[string]Value
 	inBase      bool
+	inCallback  bool
 	violations  []Violation
 	cfg         *JobCfg
 	stats       *Stats
